@@ -243,6 +243,7 @@ type HistCfg struct {
 	Malformed  bool // invalid ids, missing collections ...
 	ManyColls  bool // catalog-heavy: more collections, more create/drop
 	IndexHeavy bool // more index create/drop
+	NoFresh    bool // every inserted document carries its _id (results are then comparable across runs)
 }
 
 func opLine(name string, kv J) J {
@@ -301,7 +302,11 @@ func (h *HistGen) History(cfg HistCfg) []J {
 			docs := []interface{}{}
 			for j := 0; j < n; j++ {
 				id := ""
-				switch h.G.pick(10) {
+				pk := h.G.pick(10)
+				if cfg.NoFresh && pk == 0 {
+					pk = 2
+				}
+				switch pk {
 				case 0:
 				case 1:
 					if cfg.Malformed {
@@ -320,7 +325,7 @@ func (h *HistGen) History(cfg HistCfg) []J {
 			ln = opLine("insert", J{"coll": hx(c), "docs": docs})
 		case r < 36:
 			id := h.someId()
-			if h.G.pick(3) == 0 {
+			if h.G.pick(3) == 0 && !cfg.NoFresh {
 				id = ""
 			}
 			ln = opLine("save", J{"coll": hx(c), "doc": encDoc(h.Doc(id))})
